@@ -74,6 +74,27 @@ func indexByte(b []byte, c byte, from int) int {
 	return -1
 }
 
+// syntheticZone builds a TZif (v1) zone that is at +1h (DST) until `fallBack` and at +0h afterwards.
+func syntheticZone(fallBack time.Time) (*time.Location, error) {
+	var b []byte
+	be32 := func(v int32) { b = append(b, byte(v>>24), byte(v>>16), byte(v>>8), byte(v)) }
+	b = append(b, "TZif"...)
+	b = append(b, 0)
+	b = append(b, make([]byte, 15)...)
+	for _, c := range []int32{0, 0, 0, 2, 2, 8} { // isutcnt, isstdcnt, leapcnt, timecnt, typecnt, charcnt
+		be32(c)
+	}
+	be32(1_000_000_000)           // transition 0: long ago -> type 0 (summer time)
+	be32(int32(fallBack.Unix())) // transition 1: clocks go back one hour -> type 1
+	b = append(b, 0, 1)
+	be32(3600)
+	b = append(b, 1, 0) // isdst, abbreviation index 0
+	be32(0)
+	b = append(b, 0, 4) // abbreviation index 4
+	b = append(b, "SUM\x00STD\x00"...)
+	return time.LoadLocationFromTZData("synthetic-fallback", b)
+}
+
 func c13Worker(w *W) {
 	mode := w.Arg("mode", "continuous")
 	W := w.ArgInt("writers", 4)
@@ -84,6 +105,15 @@ func c13Worker(w *W) {
 	_ = os.MkdirAll(dir, 0755)
 	defer os.RemoveAll(dir)
 	const fname = "roll.log"
+	if mode == "dst" {
+		// local clocks fall back by one hour 2.3 s from now: rotation must go on, interval after interval
+		loc, err := syntheticZone(time.Now().Add(2300 * time.Millisecond))
+		if err != nil {
+			w.Inconclusive("synthetic zone: " + err.Error())
+			return
+		}
+		time.Local = loc
+	}
 	cs := map[string]any{"mode": mode, "writers": W, "interval_s": interval.Seconds(), "boundaries": boundaries, "flavour": w.Spec.Flavour}
 	w.Journal("C13 %v", cs)
 
@@ -94,10 +124,19 @@ func c13Worker(w *W) {
 	var inHold atomic.Int32
 	var rotDone atomic.Int64
 	var stallArmed atomic.Bool
+	var seqFrom atomic.Value // time.Time from which only writer 0 keeps writing (one write at a time)
 	log.VerifPointFn = func(name string) {
 		y.fn(name)
 		if name == "roll.rotate.swapped" {
 			rotDone.Add(1)
+		}
+		if name == "roll.rotate.created" && mode == "stalledrotator" && stallArmed.CompareAndSwap(true, false) {
+			// the rotating goroutine is overtaken by the next rotation while it sits between creating its
+			// file and publishing it; afterwards a single writer continues alone
+			holds.Add(1)
+			time.Sleep(interval + 400*time.Millisecond)
+			seqFrom.Store(time.Now().Add(100 * time.Millisecond))
+			return
 		}
 		if name == "roll.write.loaded" && mode == "stalledwriter" {
 			// one writer is stalled for more than two whole intervals between loading the current file and
@@ -162,7 +201,7 @@ func c13Worker(w *W) {
 		w.Violate("C13:start-failed", "Start failed: "+err.Error(), cs)
 		return
 	}
-	if mode == "stalledwriter" {
+	if mode == "stalledwriter" || mode == "stalledrotator" {
 		go func() { // arm the stall a little after the start and again two intervals later
 			time.Sleep(150 * time.Millisecond)
 			stallArmed.Store(true)
@@ -179,7 +218,14 @@ func c13Worker(w *W) {
 			buf := make([]byte, 0, 70000)
 			i := 0
 			for time.Now().Before(stopAt) {
+				if t, ok := seqFrom.Load().(time.Time); ok && g != 0 && time.Now().After(t.Add(-150*time.Millisecond)) {
+					return
+				}
 				switch mode {
+				case "dst":
+					time.Sleep(time.Duration(5+r.IntN(30)) * time.Millisecond)
+				case "stalledrotator":
+					time.Sleep(time.Duration(1+r.IntN(5)) * time.Millisecond)
 				case "bursts":
 					// idle, then a burst just before each boundary
 					now := time.Now()
@@ -298,6 +344,7 @@ func c13Worker(w *W) {
 		}
 	}
 	bad := false
+	recFile := map[string]string{}
 	inPrev := 0
 	for _, rc := range recs {
 		f := found[rc.id]
@@ -314,24 +361,54 @@ func c13Worker(w *W) {
 				w.Violate("C13:torn-record", fmt.Sprintf("[%s] %s in %s differs from what was written (len %d vs %d)", mode, rc.id, f[0].file, foundSnap[rc.id][0].n, rc.snap.n), cs)
 			}
 			// never in a file whose name is later than the completion of the write
-			if f[0].nameTime.After(rc.end) {
+			if mode != "dst" && f[0].nameTime.After(rc.end) {
 				bad = true
 				w.Violate("C13:write-before-file-time", fmt.Sprintf("[%s] %s completed at %s but sits in %s", mode, rc.id, rc.end.Format("15:04:05.000"), f[0].file), cs)
 			}
-			if mode == "sequential" {
+			seqPhase := false
+			if t, ok := seqFrom.Load().(time.Time); ok && mode == "stalledrotator" && rc.start.After(t.Add(interval)) {
+				seqPhase = true // well after the stall: one writer, one write at a time
+			}
+			if mode == "sequential" || seqPhase {
 				// one write at a time: a write started in interval k must be in a file created in interval k or later
 				if f[0].nameTime.Before(rc.start.Truncate(interval).Truncate(time.Second)) {
 					bad = true
-					w.Violate("C13:stale-file-after-boundary", fmt.Sprintf("[sequential] %s started at %s (interval began %s) but went to the older file %s", rc.id, rc.start.Format("15:04:05.000"), rc.start.Truncate(interval).Format("15:04:05"), f[0].file), cs)
+					w.Violate("C13:stale-file-after-boundary", fmt.Sprintf("["+mode+", one write at a time] %s started at %s (interval began %s) but went to the older file %s", rc.id, rc.start.Format("15:04:05.000"), rc.start.Truncate(interval).Format("15:04:05"), f[0].file), cs)
 				}
 			} else if f[0].nameTime.Before(rc.start.Truncate(interval).Truncate(time.Second)) {
 				inPrev++
 			}
 		}
+		if len(f) == 1 {
+			recFile[rc.id] = f[0].file
+		}
 		delete(found, rc.id)
 		if bad {
 			break
 		}
+	}
+	if mode == "dst" && !bad {
+		// sequential writer across a fall-back of the local clock: records that lie well inside different
+		// intervals must be in different files (file names are not compared: local time repeats itself)
+		fileOf := map[int64]string{}
+		for _, rc := range recs {
+			k := rc.start.Unix() / int64(interval/time.Second)
+			bStart := time.Unix(k*int64(interval/time.Second), 0)
+			if rc.start.Sub(bStart) < 100*time.Millisecond || bStart.Add(interval).Sub(rc.end) < 100*time.Millisecond || recFile[rc.id] == "" {
+				continue
+			}
+			fileOf[k] = recFile[rc.id]
+		}
+		seenFile := map[string]int64{}
+		for k, f := range fileOf {
+			if k2, dup := seenFile[f]; dup && k2 != k {
+				bad = true
+				w.Violate("C13:no-rotation-across-clock-change", fmt.Sprintf("[dst] records written one at a time well inside intervals %d and %d (local clocks fell back by one hour in between) share the file %s: no file was created for the new interval", k2, k, f), cs)
+				break
+			}
+			seenFile[f] = k
+		}
+		w.Count("dst_intervals_with_own_file", int64(len(seenFile)))
 	}
 	for id, snap := range preseed {
 		f := found[id]
@@ -374,7 +451,7 @@ func c13Worker(w *W) {
 func init() {
 	register(&Prop{
 		ID: "C13", Level: "exploration", MinDistinct: 5, Worker: c13Worker,
-		Rule: "RollingFileAppender built directly with 1 s / 2 s intervals, crossed by real boundaries (quick 3-4, thorough up to 10) in parallel child processes: continuous writers (4-16), bursts aligned just before each boundary (16 writers x 20 records), a sequential writer that also idles across whole intervals, Stop/Start cycles several times per second, Start on a directory pre-seeded with same-named files for the current and following seconds, a mix with one-byte writes, and a run in which one writer is stalled for more than two whole intervals inside Write; " +
+		Rule: "RollingFileAppender built directly with 1 s / 2 s intervals, crossed by real boundaries (quick 3-4, thorough up to 10) in parallel child processes: continuous writers (4-16), bursts aligned just before each boundary (16 writers x 20 records), a sequential writer that also idles across whole intervals, Stop/Start cycles several times per second, Start on a directory pre-seeded with same-named files for the current and following seconds, a mix with one-byte writes, a run in which one writer is stalled for more than two whole intervals inside Write, a run in which the rotating goroutine is overtaken by the next rotation and a single writer then continues alone, and a sequential run during which the local clock falls back by one hour (synthetic time zone); " +
 			"records are self-describing frames of 12 B - 64 KiB with client-side snapshot (length+CRC) and wall-clock start/end stamps; a guarded yield point holds half of the writers that loaded the current file within 12 ms of a boundary until another writer has completed the rotation (at most 300 ms after the boundary), and adds 0-4 ms inside rotate() (all below one interval). " +
 			"Oracle over the final directory: every record whole, exactly once, in exactly one file named <name>.<14 digits>; no record in a file whose name-time is after the write completed; sequential mode: a write started in interval k is not in a file older than interval k; pre-existing content preserved; one-byte writes counted. Non-trivial/distinct = distinct (mode, writers, interval, build flavour, files created) runs that held.",
 		Assumptions: []string{"delays injected at yield points stay <= 300 ms, below one rotation interval, except in the stalled-writer run, where one writer is held for 2.3 intervals between loading the current file and writing (two rotations pass)", "wall clock is monotone during a run; file-name times are compared at one-second resolution"},
@@ -397,6 +474,8 @@ func init() {
 			add("preseeded", 4, 1, "plain", nb)
 			add("onebyte", 4, 2, "plain", 2)
 			add("stalledwriter", 2, 1, "plain", 4)
+			add("stalledrotator", 2, 1, "plain", 5)
+			add("dst", 1, 1, "plain", 5)
 			if !d.Quick() {
 				add("continuous", 16, 1, "plain", 10)
 				add("continuous", 2, 2, "plain", 4)
